@@ -22,7 +22,8 @@ def gen_template(rng):
 
 
 def exec_truth(argv, e):
-    return refeval.rec_chain(argv[1:]) % 2 == 0
+    # recorder outcome (VERIF_REC_FN=outcome6): chain % 6 in {0,1} exit 0; 2 exit 1; 3 exit 3; 4 killed by SIGKILL; 5 by SIGTERM
+    return refeval.rec_chain(argv[1:]) % 6 in (0, 1)
 
 
 def gen_expr(rng, tag):
@@ -76,7 +77,7 @@ def worker(job):
             tag = "X%d_%d" % (k, t)
             toks, shape, kind, tmpl = gen_expr(rng, tag)
             log = os.path.join(sb, "rec.log")
-            env = common.clean_env({"VERIF_REC_LOG": log, "VERIF_REC_FN": "mod:2"})
+            env = common.clean_env({"VERIF_REC_LOG": log, "VERIF_REC_FN": "outcome6"})
             rc, out, err, to = common.run_cmd([common.FIND, "r"] + toks, cwd=sb, env=env, timeout=120)
             st.inc("evaluations")
             st.inc("shape:" + shape)
@@ -96,6 +97,8 @@ def worker(job):
             w = refwalk.Walk("P", 0, None, False, True, sb)
             w.run("r", on_visit)
             exp_runs = [(d, argv[1:]) for (name, d, argv, path) in renv.exec_log if argv[0] == common.REC]
+            for d_, a_ in exp_runs:
+                st.inc("child_outcome:" + ["exit0", "exit0", "exit1", "exit3", "SIGKILL", "SIGTERM"][refeval.rec_chain(a_) % 6])
             got = xref.read_reclog(log)
             got_runs = []
             for cwd, argv in got:
@@ -144,11 +147,12 @@ def run(ctx):
     ctx.rule = ("hostile file names (blanks, quotes, newlines, {}, leading dashes, glob/control/multibyte characters) x argument "
                 "templates with 0-3 {} per argument, embedded/adjacent {}, lone braces, empty arguments, arguments that look like "
                 "find primaries x -exec/-execdir x 7 positions of the action (plain, after tests, negated, in -o, twice, missing "
-                "command); recorder exit status is a pure function of argv; distinct = (expression, tree)")
+                "command); recorder outcome (exit 0 / 1 / 3 / death by SIGKILL / SIGTERM) is a pure function of argv; distinct = (expression, tree)")
     ctx.assumptions = ["reference evaluator + substitution model template.replace('{}', path)", "starting point spelled 'r' (basename well defined)",
                        "'{}' in the command name itself not judged"]
     nw = common.NCPU
     n = ctx.scale(480, 16000)
     ctx.pmap(worker, [(k, n // nw, ctx.seed) for k in range(nw)])
-    for key in ("kind:-exec", "kind:-execdir", "missing_command_runs", "templates_with_0_braces", "templates_with_3_braces", "shape:negated"):
+    for key in ("kind:-exec", "kind:-execdir", "missing_command_runs", "templates_with_0_braces", "templates_with_3_braces", "shape:negated", "child_outcome:SIGKILL",
+                "child_outcome:SIGTERM", "child_outcome:exit3", "child_outcome:exit0"):
         ctx.require(key, 3)
